@@ -24,6 +24,8 @@ BLOCKS = [
     dict(name='XorConst', generics='<T: Copy + std::ops::BitXor<Output = T>>', ins=['src'], outs=['dst'], mut=True, new=True, attr='#[verifier::reject_recursive_types(T)]'),
     dict(name='MultiplyConst', generics='<T: Copy + std::ops::Mul<Output = T>>', ins=['src'], outs=['dst'], mut=False, new=True, attr='#[verifier::reject_recursive_types(T)]'),
     dict(name='Add', generics='<Ta: Copy + std::ops::Add<Tb, Output = Tout>, Tb: Copy, Tout: Copy>', targs='<Ta, Tb, Tout>', ins=['a', 'b'], outs=['dst'], mut=False, new=True, attr='#[verifier::reject_recursive_types(Ta)]~#[verifier::reject_recursive_types(Tb)]~#[verifier::reject_recursive_types(Tout)]'),
+    dict(name='BurstTagger', generics='<T: Copy>', ins=['src', 'trigger'], outs=['dst'], mut=True, new=True, mode='sync_tag', attr='#[verifier::reject_recursive_types(T)]'),
+    dict(name='CorrelateAccessCodeTag', ins=['src'], outs=['dst'], mut=True, new=False, mode='sync_tag'),
     dict(name='AddConst', generics='<T: Copy + std::ops::Add<Output = T>>', ins=['src'], outs=['dst'], mut=False, new=True, attr='#[verifier::reject_recursive_types(T)]'),
 ]
 
@@ -60,18 +62,27 @@ def section(b):
     A('//@cut struct @expanded/lib %s%s' % (nm, (' attr=' + b['attr']) if b.get('attr') else ''))
     frame = ' && '.join('final(self).%s@ == old(self).%s@' % (f, f) for f in ins + outs)
     A('impl%s %s%s {' % (gen, nm, targs))
-    A('//@cut fn @expanded/lib %s::process_sync' % nm)
-    A('//@sigonly')
-    if b['mut']:
+    tagmode = b.get('mode') == 'sync_tag'
+    if tagmode:
+        # the user wrote process_sync_tags: signature only here (its tag rule is the kernel's business, unit kernels)
+        A('//@cut fn @expanded/lib %s::process_sync_tags' % nm)
+        A('//@sigonly')
         A('//@ensures')
         A('//  %s,' % frame)
-    A('//@end')
-    A('//@cut fn @expanded/lib %s::process_sync_tags' % nm)
-    A('//@ret r')
-    A('//@ensures')
-    A('//  [C19+C12.%s.sync-mode-forwards-the-tags-of-the-first-input] cow_views(r.%d) == views(%s_tag@),' % (lo, len(outs), ins[0]))
-    A('//  [C19.%s.tag-processing-leaves-the-streams-alone] %s,' % (lo, frame))
-    A('//@end')
+        A('//@end')
+    else:
+        A('//@cut fn @expanded/lib %s::process_sync' % nm)
+        A('//@sigonly')
+        if b['mut']:
+            A('//@ensures')
+            A('//  %s,' % frame)
+        A('//@end')
+        A('//@cut fn @expanded/lib %s::process_sync_tags' % nm)
+        A('//@ret r')
+        A('//@ensures')
+        A('//  [C19+C12.%s.sync-mode-forwards-the-tags-of-the-first-input] cow_views(r.%d) == views(%s_tag@),' % (lo, len(outs), ins[0]))
+        A('//  [C19.%s.tag-processing-leaves-the-streams-alone] %s,' % (lo, frame))
+        A('//@end')
     tsrc = ins[0]
     n_expr = 'final(self).%s@.consumed.len() - old(self).%s@.consumed.len()' % (ins[0], ins[0])
     A('//@cut fn @expanded/lib Block@%s::work' % nm)
@@ -85,7 +96,7 @@ def section(b):
     A('//  [C19+C08.%s.one-sample-from-every-input-and-to-every-output-per-step] r is Ok && r->Ok_0 is Again ==> ({ let n = %s; n >= 1 && %s }),' % (lo, n_expr, moved))
     exhausted = ' || '.join(['final(self).%s@.pending.len() == 0' % f for f in ins] + ['final(self).%s@.space == 0' % f for f in outs])
     A('//  [C19+C08.%s.exactly-min-of-shortest-input-and-smallest-space-steps] r is Ok && r->Ok_0 is Again ==> %s,' % (lo, exhausted))
-    for o in outs:
+    for o in ([] if tagmode else outs):
         A('//  [C19+C12.%s.tags-travel-with-their-samples-to-output-%s] r is Ok && r->Ok_0 is Again ==> final(self).%s@.tags == old(self).%s@.tags + shift_tags(final(self).%s@.ctags.skip(old(self).%s@.ctags.len() as int), old(self).%s@.produced.len() - old(self).%s@.consumed.len()),'
           % (lo, o, o, o, tsrc, tsrc, o, tsrc))
     waits = ' || '.join(['(s@.id == final(self).%s@.id && final(self).%s@.pending.len() == 0)' % (f, f) for f in ins]
@@ -93,78 +104,112 @@ def section(b):
     A('//  [C19+C09.%s.waits-on-a-stream-that-is-empty-or-full] r is Ok ==> (match r->Ok_0 { BlockRet::WaitForStream(s, need) => need == 1 && (%s), BlockRet::Again => true, _ => false }),' % (lo, waits))
     idle = ' && '.join(['idle_r(old(self).%s@, final(self).%s@)' % (f, f) for f in ins] + ['idle_w(old(self).%s@, final(self).%s@)' % (f, f) for f in outs])
     A('//  [C19+C09.%s.nothing-moves-unless-a-step-was-made] !(r is Ok && r->Ok_0 is Again) ==> %s,' % (lo, idle))
-    A('//@after let empty_tags')
-    A('//  let ghost atv = views(%s_tag@);' % tsrc)
-    for f in ins + outs:
-        A('//  let ghost s_%s = self.%s@;' % (f, f))
-    for f in outs:
-        A('//  let ghost w_%s = %s@;' % (f, f))
-    A('//  proof {')
-    A('//      lemma_abs_sorted(atv, s_%s.consumed.len() as int);' % tsrc)
-    A('//      assert forall|i: int| 0 <= i < atv.len() implies 0 <= (#[trigger] atv[i]).pos by { assert(atv[i] == %s_tag@[i]@); }' % tsrc)
-    A('//      lemma_tv_lt_zero(atv);')
-    A('//  }')
-    framei = ', '.join('self.%s@ == s_%s' % (f, f) for f in ins + outs)
-    A('//@loop 1')
-    A('//  invariant')
-    A('//      pos <= __steps, __steps == n,')
-    A('//      1 <= n, // [C19+C09.%s.a-call-that-gets-this-far-makes-at-least-one-step]' % lo)
-    for f in [f for f in ins + outs]:
-        A('//      n <= %s@.data.len(), // [C19+C09.%s.the-step-count-fits-every-window]' % (f, lo))
-    A('//      %s,' % ', '.join('%s@.sid == w_%s.sid, %s@.data.len() == w_%s.data.len()' % (f, f, f, f) for f in outs))
-    A('//      %s,' % framei)
-    A('//      atv == views(%s_tag@), pos_sorted(atv),' % tsrc)
-    # all the fast path needs: it is taken only when the tags that reach the outputs are absent (how the generated code
-    # decides that is its business)
-    A('//      empty_tags ==> atv.len() == 0, // [C19+C12.%s.the-tag-free-fast-path-is-taken-only-without-tags]' % lo)
-    A('//      views(otags@) == tv_lt(atv, pos as int), // [C19+C12.%s.tags-are-collected-position-by-position]' % lo)
-    A('//@loop 2')
-    A('//  invariant')
-    A('//      __i <= __ts@.len(), __ts@.len() == 0, views(otags@) == tv_lt(atv, pos as int),')
-    A('//      %s,' % framei)
-    A('//@loop 3')
-    A('//  invariant')
-    A('//      __i <= __ts@.len(), pos < n,')
-    A('//      views(otags@) == tv_lt(atv, pos as int) + at_pos(views(__ts@).take(__i as int), pos as int),')
-    A('//      %s,' % framei)
-    A('//@loopstart 3')
-    A('//  let ghost ot0 = views(otags@);')
-    A('//@loopend 3')
-    A('//  proof {')
-    A('//      let e = TagView { pos: pos as int, id: __ts@[__i - 1]@.id };')
-    A('//      assert(views(otags@) =~= ot0.push(e));')
-    A('//      assert(views(__ts@)[__i - 1] == __ts@[__i - 1]@);')
-    A('//      assert(views(__ts@).take(__i as int) =~= views(__ts@).take(__i - 1).push(views(__ts@)[__i - 1]));')
-    A('//      assert(at_pos(views(__ts@).take(__i as int), pos as int) =~= at_pos(views(__ts@).take(__i - 1), pos as int).push(e));')
-    A('//      assert(views(otags@) =~= tv_lt(atv, pos as int) + at_pos(views(__ts@).take(__i as int), pos as int));')
-    A('//  }')
-    A('//@after let __ts#1')
-    A('//  proof { assert(views(__ts@).len() == __ts@.len()); assert(cow_views(ts).len() == 0); }')
-    A('//@after while __i#1')
-    A('//  proof {')
-    A('//      if atv.len() == 0 { assert(tv_eq(atv, pos as int) =~= Seq::<TagView>::empty()); }')
-    A('//      assert(tv_eq(atv, pos as int).len() == 0);')
-    A('//      assert(tv_lt(atv, pos as int) + tv_eq(atv, pos as int) =~= tv_lt(atv, pos as int));')
-    A('//      assert(views(otags@) == tv_lt(atv, pos as int) + tv_eq(atv, pos as int));')
-    A('//  }')
-    A('//@after while __i#2')
-    A('//  proof {')
-    A('//      assert(views(__ts@).take(__ts@.len() as int) =~= views(__ts@));')
-    A('//      lemma_at_pos_back(atv, pos as int);')
-    A('//      assert(views(otags@) == tv_lt(atv, pos as int) + tv_eq(atv, pos as int));')
-    A('//  }')
-    A('//@before pos += 1')
-    A('//  proof {')
-    A('//      lemma_tv_step(atv, pos as int);')
-    A('//      assert(views(otags@) == tv_lt(atv, pos + 1));')
-    A('//  }')
-    A('//@before self.%s.consume' % ins[0])
-    A('//  proof {')
-    A('//      lemma_tv_lt_in(atv, n as int);')
-    A('//      assert forall|i: int| 0 <= i < otags@.len() implies 0 <= (#[trigger] otags@[i])@.pos < n by { assert(otags@[i]@ == views(otags@)[i]); }')
-    for f in outs:
-        A('//      lemma_sync_tags_moved(atv, s_%s.consumed.len() as int, s_%s.produced.len() as int, n as int);' % (tsrc, f))
-    A('//  }')
+    if tagmode:
+        A('//@after let empty_tags')
+        for f in ins + outs:
+            A('//  let ghost s_%s = self.%s@;' % (f, f))
+        for f in outs:
+            A('//  let ghost w_%s = %s@;' % (f, f))
+        framei = ', '.join('self.%s@ == s_%s' % (f, f) for f in ins + outs)
+        A('//@loop 1')
+        A('//  invariant')
+        A('//      pos <= __steps, __steps == n,')
+        A('//      1 <= n, // [C19+C09.%s.a-call-that-gets-this-far-makes-at-least-one-step]' % lo)
+        for f in ins + outs:
+            A('//      n <= %s@.data.len(), // [C19+C09.%s.the-step-count-fits-every-window]' % (f, lo))
+        A('//      %s,' % ', '.join('%s@.sid == w_%s.sid, %s@.data.len() == w_%s.data.len()' % (f, f, f, f) for f in outs))
+        A('//      %s,' % framei)
+        A('//      forall|i: int| 0 <= i < views(otags@).len() ==> 0 <= (#[trigger] views(otags@)[i]).pos < pos, // [C19+C12.%s.every-tag-is-attached-to-the-step-it-was-produced-in]' % lo)
+        for k in (2, 3):
+            A('//@loop %d' % k)
+            A('//  invariant')
+            A('//      __i <= __ts@.len(), pos < n,')
+            A('//      forall|i: int| 0 <= i < views(otags@).len() ==> 0 <= (#[trigger] views(otags@)[i]).pos <= pos,')
+            A('//      %s,' % framei)
+            A('//@loopstart %d' % k)
+            A('//  let ghost ot0 = views(otags@);')
+            A('//@loopend %d' % k)
+            A('//  proof {')
+            A('//      let e = TagView { pos: pos as int, id: __ts@[__i - 1]@.id };')
+            A('//      assert(views(otags@) =~= ot0.push(e));')
+            A('//  }')
+        A('//@before self.%s.consume' % ins[0])
+        A('//  proof {')
+        A('//      assert forall|i: int| 0 <= i < otags@.len() implies 0 <= (#[trigger] otags@[i])@.pos < n by { assert(otags@[i]@ == views(otags@)[i]); }')
+        A('//  }')
+    else:
+        A('//@after let empty_tags')
+        A('//  let ghost atv = views(%s_tag@);' % tsrc)
+        for f in ins + outs:
+            A('//  let ghost s_%s = self.%s@;' % (f, f))
+        for f in outs:
+            A('//  let ghost w_%s = %s@;' % (f, f))
+        A('//  proof {')
+        A('//      lemma_abs_sorted(atv, s_%s.consumed.len() as int);' % tsrc)
+        A('//      assert forall|i: int| 0 <= i < atv.len() implies 0 <= (#[trigger] atv[i]).pos by { assert(atv[i] == %s_tag@[i]@); }' % tsrc)
+        A('//      lemma_tv_lt_zero(atv);')
+        A('//  }')
+        framei = ', '.join('self.%s@ == s_%s' % (f, f) for f in ins + outs)
+        A('//@loop 1')
+        A('//  invariant')
+        A('//      pos <= __steps, __steps == n,')
+        A('//      1 <= n, // [C19+C09.%s.a-call-that-gets-this-far-makes-at-least-one-step]' % lo)
+        for f in [f for f in ins + outs]:
+            A('//      n <= %s@.data.len(), // [C19+C09.%s.the-step-count-fits-every-window]' % (f, lo))
+        A('//      %s,' % ', '.join('%s@.sid == w_%s.sid, %s@.data.len() == w_%s.data.len()' % (f, f, f, f) for f in outs))
+        A('//      %s,' % framei)
+        A('//      atv == views(%s_tag@), pos_sorted(atv),' % tsrc)
+        # all the fast path needs: it is taken only when the tags that reach the outputs are absent (how the generated code
+        # decides that is its business)
+        A('//      empty_tags ==> atv.len() == 0, // [C19+C12.%s.the-tag-free-fast-path-is-taken-only-without-tags]' % lo)
+        A('//      views(otags@) == tv_lt(atv, pos as int), // [C19+C12.%s.tags-are-collected-position-by-position]' % lo)
+        A('//@loop 2')
+        A('//  invariant')
+        A('//      __i <= __ts@.len(), __ts@.len() == 0, views(otags@) == tv_lt(atv, pos as int),')
+        A('//      %s,' % framei)
+        A('//@loop 3')
+        A('//  invariant')
+        A('//      __i <= __ts@.len(), pos < n,')
+        A('//      views(otags@) == tv_lt(atv, pos as int) + at_pos(views(__ts@).take(__i as int), pos as int),')
+        A('//      %s,' % framei)
+        A('//@loopstart 3')
+        A('//  let ghost ot0 = views(otags@);')
+        A('//@loopend 3')
+        A('//  proof {')
+        A('//      let e = TagView { pos: pos as int, id: __ts@[__i - 1]@.id };')
+        A('//      assert(views(otags@) =~= ot0.push(e));')
+        A('//      assert(views(__ts@)[__i - 1] == __ts@[__i - 1]@);')
+        A('//      assert(views(__ts@).take(__i as int) =~= views(__ts@).take(__i - 1).push(views(__ts@)[__i - 1]));')
+        A('//      assert(at_pos(views(__ts@).take(__i as int), pos as int) =~= at_pos(views(__ts@).take(__i - 1), pos as int).push(e));')
+        A('//      assert(views(otags@) =~= tv_lt(atv, pos as int) + at_pos(views(__ts@).take(__i as int), pos as int));')
+        A('//  }')
+        A('//@after let __ts#1')
+        A('//  proof { assert(views(__ts@).len() == __ts@.len()); assert(cow_views(ts).len() == 0); }')
+        A('//@after while __i#1')
+        A('//  proof {')
+        A('//      if atv.len() == 0 { assert(tv_eq(atv, pos as int) =~= Seq::<TagView>::empty()); }')
+        A('//      assert(tv_eq(atv, pos as int).len() == 0);')
+        A('//      assert(tv_lt(atv, pos as int) + tv_eq(atv, pos as int) =~= tv_lt(atv, pos as int));')
+        A('//      assert(views(otags@) == tv_lt(atv, pos as int) + tv_eq(atv, pos as int));')
+        A('//  }')
+        A('//@after while __i#2')
+        A('//  proof {')
+        A('//      assert(views(__ts@).take(__ts@.len() as int) =~= views(__ts@));')
+        A('//      lemma_at_pos_back(atv, pos as int);')
+        A('//      assert(views(otags@) == tv_lt(atv, pos as int) + tv_eq(atv, pos as int));')
+        A('//  }')
+        A('//@before pos += 1')
+        A('//  proof {')
+        A('//      lemma_tv_step(atv, pos as int);')
+        A('//      assert(views(otags@) == tv_lt(atv, pos + 1));')
+        A('//  }')
+        A('//@before self.%s.consume' % ins[0])
+        A('//  proof {')
+        A('//      lemma_tv_lt_in(atv, n as int);')
+        A('//      assert forall|i: int| 0 <= i < otags@.len() implies 0 <= (#[trigger] otags@[i])@.pos < n by { assert(otags@[i]@ == views(otags@)[i]); }')
+        for f in outs:
+            A('//      lemma_sync_tags_moved(atv, s_%s.consumed.len() as int, s_%s.produced.len() as int, n as int);' % (tsrc, f))
+        A('//  }')
     A('//@end')
     A('//@cut fn @expanded/lib BlockEOF@%s::eof' % nm)
     A('//@ret r')
